@@ -26,6 +26,15 @@ typedef bool boolean;
 #undef abs
 #endif
 #define abs(x) ((x) > 0 ? (x) : -(x))
+// the Arduino core also defines min/max as macros (a sketch may use them on mixed integer types)
+#ifdef min
+#undef min
+#endif
+#ifdef max
+#undef max
+#endif
+#define min(a, b) ((a) < (b) ? (a) : (b))
+#define max(a, b) ((a) > (b) ? (a) : (b))
 
 namespace shim {
 struct World {
